@@ -82,6 +82,12 @@ theorem step_nodup (t : Tree) (op : Op) (hn : t.uids.Nodup) : (step t op).1.uids
       · exact hn
       · intro e; rfl
     · exact hn
+  | setTyp u ty =>
+    simp only [step]; split
+    · rw [update_uids]
+      · exact hn
+      · intro e; rfl
+    · exact hn
   | pgSet o g =>
     simp only [step]
     cases hf : t.findSub o with
